@@ -453,6 +453,11 @@ def rich_repo(rng):
         later = names[i + 1:]
         if later and rng.random() < (0.5 if not e["imps"] else 0.2):
             e["extras"].append("s" + rng.choice(later))
+    # where the features are defined: in the module (default), only in the submodule (q), the first in the module and the
+    # others in the submodule (Q), in a second submodule that the first one includes, too (z)
+    for e in ents:
+        if e["feats"] and rng.random() < 0.45:
+            e["extras"].append(rng.choice(["q", "q", "Q", "z"]))
     for e in ents:
         if rng.random() < 0.25:
             e["fault"] = rng.choice(FAULTS)
@@ -474,6 +479,7 @@ def gen_rich_script(rng, flags=None):
     ents = rich_repo(rng)
     if flags is None:
         flags = rng.choice(RICH_FLAGS)
+    flags0 = flags
     ops = []
     for _ in range(rng.randrange(3, 9)):
         r = rng.random()
@@ -490,11 +496,20 @@ def gen_rich_script(rng, flags=None):
         if r < 0.65 and e["imps"] and rng.random() < 0.6:
             for t in rng.sample(e["imps"], rng.randrange(1, len(e["imps"]) + 1)):
                 ops.append("I %s 1 ~" % t)
+        if rng.random() < 0.2:
+            # the options are changed in the middle of the history; LY_CTX_EXPLICIT_COMPILE (1) is only ever set, never unset
+            fl = rng.choice([2, 4, 8, 16, 18, 20, 22, 24, 30, 6, 10]) | (1 if rng.random() < 0.15 else 0)
+            if rng.random() < 0.7:
+                ops.append("O %d" % fl)
+                if fl & 1:
+                    flags |= 1
+            else:
+                ops.append("U %d" % (fl & ~1))
         if (flags & 1) and rng.random() < 0.35:
             ops.append("C")                     # several calls stay pending between two compilations
     if flags & 1:
         ops.append("C")
-    return "\t".join(["ctxr", str(flags), rich_repo_str(ents)] + ops)
+    return "\t".join(["ctxr", str(flags0), rich_repo_str(ents)] + ops)
 
 
 def rich_templates(rng):
@@ -514,6 +529,20 @@ def rich_templates(rng):
         for ex in ("a0", "v0", "r0", "w0", "a0,r0"):
             repo = "t1:-:f1,f2:0:-;p1:t1:-:0:-;m1:t1:-:4:%s" % ex
             out.append("\t".join(["ctxr", str(fl), repo, "P 1 - ~", "P 2 - ~", "I t 1 ~"]))
+    # the option-changing API as an operation: ly_ctx_set_options with LY_CTX_SET_PRIV_PARSED recompiles the context, which fails
+    # when a pending module cannot be compiled; the options must then be what they were
+    for fl in (16, 18, 20, 24, 22, 30, 17):
+        for fy in (3, 4):
+            repo = "a1:-:f1:0:-;y1:a1:-:%d:r0" % fy
+            out.append("\t".join(["ctxr", "1", repo, "P 0 - ~", "C", "P 1 - ~", "O %d" % fl, "P 0 - ~", "C", "L a 1 ~"]))
+            out.append("\t".join(["ctxr", "0", repo, "P 0 - ~", "O 1", "P 1 - ~", "O %d" % fl, "U 16", "O %d" % (fl & ~1)]))
+        out.append("\t".join(["ctxr", "0", "a1:-:f1:0:-;b1:a1:-:0:a0", "P 1 - ~", "O %d" % fl, "U %d" % (fl & ~1), "I a 1 f1"]))
+    # features defined in submodules, named in failing operations
+    for ex in ("q", "Q", "z", "q,sb", "Q,sb"):
+        repo = "a1:b1:f1,f2/f1,f3:0:%s;b1:-:-:0:-;c1:a1:-:0:-;d1:a1:-:4:a0" % ex.replace("sb", "sb")
+        out.append("\t".join(["ctxr", "0", repo, "P 0 - f1", "I a 1 f2", "I a 1 f2,f3", "I a 1 f9", "P 0 - f2", "L a 1 f3,f2", "P 2 - ~"]))
+        out.append("\t".join(["ctxr", "0", repo, "P 2 - ~", "I a 1 f2", "L a 1 f2,f3", "P 0 - f2", "P 3 - ~", "I a 1 f1"]))
+        out.append("\t".join(["ctxr", "2", repo, "P 2 - ~", "P 3 - ~", "I a 1 ~"]))
     # explicit compilation with several pending dependency sets; the failing one is compiled first / last
     for order in (("P 1 - ~", "P 2 - ~"), ("P 2 - ~", "P 1 - ~")):
         for ex, fy in (("a0", 4), ("v0", 4), ("a0,d0", 3), ("r0", 4)):
@@ -550,15 +579,17 @@ class CtxRich:
         fld = line.split("\t")
         flags, ops = int(fld[1]), fld[3:]
         explicit = bool(flags & 1)
+        opt_of = lambda o: o.rsplit(";O:", 1)[1] if ";O:" in o else ""
         if out.startswith("CRASH(") or out == "TIMEOUT":
             return (None, "the script ends with %s %s" % (out, (self.last_err or "")[-300:]))
         segs = out.split(" | ")
         if out.startswith("?") or len(segs) != len(ops):
             return (None, "driver protocol: %s" % out[:100])
         prev = None
-        empty = ";L:--------;M:--------"
+        empty = ";L:--------;M:--------;O:%d" % flags
         last_compiled = empty            # explicit compilation: the observable after the last successful ly_ctx_compile()
         diverged = False                 # explicit compilation: a failed call threw pending calls away, the shadow context kept them
+        ref_late = False                 # LY_CTX_REF_IMPLEMENTED was set by ly_ctx_set_options() when modules were already compiled
         for i, (op, sg) in enumerate(zip(ops, segs)):
             if sg.startswith("?"):
                 return (None, "driver protocol: %s" % sg)
@@ -568,31 +599,43 @@ class CtxRich:
             body, sh = sg.rsplit(" S", 1)
             res, obs = body.split(";", 1)
             before = prev if prev is not None else empty
+            explicit = bool(int(opt_of(before) or 0) & 1)
+            if res == "E" and op[0] in "OU" and opt_of(obs) != opt_of(before):
+                return (None, "op %d (%s) failed and ly_ctx_get_options() changed: %s -> %s" % (i, op, opt_of(before), opt_of(obs)))
             # Retired tags (a recurrence is a plain violation): ctx-target-not-compiled (fixed by /repo d873110),
             # ctx-explicit-compile-partial (c018937), ctx-imp-features-kept (d89c6b6)
+            if res == "E" and ref_late and obs != before and op != "C" and op[0] not in "OU" and \
+                    not (bool(int(opt_of(before) or 0) & 1) and "*{" in before):
+                return ("ctx-ref-implemented-set-late", "op %d (%s) failed and the recompilation of the revert ran with options set after the last compilation: %s" % (i, op, obs))
             if res == "E" and "c=!" in obs and "c=!" not in before:
-                return (None, "op %d (%s) failed and left a compiled module with an unresolved leafref: %s" % (i, op, obs))
+                return ("ctx-ref-implemented-set-late" if ref_late else None, "op %d (%s) failed and left a compiled module with an unresolved leafref: %s" % (i, op, obs))
             if res == "E":
                 was_pending = explicit and "*{" in before
                 if was_pending and op == "C":
                     # a failed ly_ctx_compile() throws away everything since the last compilation (by design of the explicit
                     # mode); what was compiled before must be what it was
                     diverged = True
-                    if obs != last_compiled:
-                        return (None,
+                    if obs.rsplit(";O:", 1)[0] != last_compiled.rsplit(";O:", 1)[0] or opt_of(obs) != opt_of(before):
+                        return ("ctx-ref-implemented-set-late" if ref_late else None,
                                 "op %d (C) failed and the context is not what the last compilation left: then %s now %s" % (i, last_compiled, obs))
                 elif obs != before:
+                    if ref_late and "*{" in obs and not was_pending:
+                        # the recompilation of the revert runs with the options of now: it implements the modules that when/must
+                        # of the old modules refer to, and fails with them
+                        return ("ctx-ref-implemented-set-late", "op %d (%s) failed and the recompilation of the revert implemented more modules: %s" % (i, op, obs))
                     if was_pending:
                         return ("ctx-explicit-revert-pending", "op %d (%s) failed and undid pending calls: before %s after %s" % (i, op, before, obs))
                     return (None, "op %d (%s) failed and the context is not what it was: before %s after %s" % (i, op, before, obs))
             elif res == "ok":
+                if op[0] == "O" and (int(op.split(" ")[1]) & 4) and not (int(opt_of(before) or 0) & 4) and before.split(";")[0]:
+                    ref_late = True
                 if (not explicit and "*{" in obs) or "c=!" in obs:
                     # a successful call left an implemented module that is not compiled: the target of an augment / deviation
                     # of a module that was implemented on the spot because of a leafref, when or must (lys_compile_expr_implement)
                     return (None, "op %d (%s) succeeded and left a module implemented but not compiled: %s" % (i, op, obs))
                 if sh == "!" and not diverged:
                     return (None, "op %d (%s) succeeded but the context differs from one that saw only the successful operations: %s" % (i, op, obs))
-                if op == "C" or not explicit:
-                    last_compiled = obs
+                if "*{" not in obs:
+                    last_compiled = obs         # nothing pending: this is what a failed ly_ctx_compile() has to come back to
             prev = obs
         return None
